@@ -182,8 +182,16 @@ impl ModelSpec {
         let basis: Option<Vec<Basis>> = v["basis"].as_array()?.iter().map(|b| b.as_str().and_then(Basis::from_tag)).collect();
         Some(ModelSpec { x, basis: basis?, np: v["np"].as_u64()? as usize })
     }
+    /// parameter names for the builder: distinct words whose lexicographic order is unrelated to
+    /// the model order (a different rotation of the pool per specification), so that any code
+    /// path that sorts, searches or compares names instead of using the declared order shows
     pub fn names(&self) -> Vec<String> {
-        (0..self.np).map(|k| format!("a{k}")).collect()
+        const POOL: [&str; 24] = [
+            "tau", "omega", "mu", "sigma", "k1", "k2", "phi", "rho", "zeta", "nu", "xi", "chi", "beta", "gamma", "delta", "eps", "kappa", "lambda", "theta", "iota", "psi", "eta",
+            "upsilon", "alpha",
+        ];
+        let h = crate::rng::hash_u64s([self.np as u64, self.x.len() as u64, crate::rng::fnv(format!("{:?}", self.basis).as_bytes())]) as usize;
+        (0..self.np).map(|k| if k < 24 { POOL[(h + 7 * k) % 24].to_string() } else { format!("{}{}", POOL[(h + 7 * k) % 24], k / 24) }).collect()
     }
 }
 
@@ -511,6 +519,9 @@ pub enum AnyModel<T: Sc> {
     Table(TableModel<T>),
     /// diag(w)·inner — used as the pre-scaled twin in C06
     RowScaled(Box<AnyModel<T>>, DVector<T>),
+    /// values of the inner model, derivatives replaced by fixed tables (hostile derivatives next to
+    /// finite values, used by C08)
+    BadDeriv(Box<AnyModel<T>>, Vec<DMatrix<T>>),
 }
 
 impl<T: Sc> AnyModel<T> {
@@ -522,6 +533,7 @@ impl<T: Sc> AnyModel<T> {
             AnyModel::OneCol(_) => "onecol",
             AnyModel::Table(_) => "table",
             AnyModel::RowScaled(_, _) => "rowscaled",
+            AnyModel::BadDeriv(_, _) => "bad-derivatives",
         }
     }
 }
@@ -550,6 +562,7 @@ impl<T: Sc> SeparableNonlinearModel for AnyModel<T> {
             AnyModel::OneCol(m) => m.parameter_count(),
             AnyModel::Table(m) => m.parameter_count(),
             AnyModel::RowScaled(m, _) => m.parameter_count(),
+            AnyModel::BadDeriv(m, _) => m.parameter_count(),
         }
     }
     fn base_function_count(&self) -> usize {
@@ -560,6 +573,7 @@ impl<T: Sc> SeparableNonlinearModel for AnyModel<T> {
             AnyModel::OneCol(m) => m.base_function_count(),
             AnyModel::Table(m) => m.base_function_count(),
             AnyModel::RowScaled(m, _) => m.base_function_count(),
+            AnyModel::BadDeriv(m, _) => m.base_function_count(),
         }
     }
     fn output_len(&self) -> usize {
@@ -570,6 +584,7 @@ impl<T: Sc> SeparableNonlinearModel for AnyModel<T> {
             AnyModel::OneCol(m) => m.output_len(),
             AnyModel::Table(m) => m.output_len(),
             AnyModel::RowScaled(m, _) => m.output_len(),
+            AnyModel::BadDeriv(m, _) => m.output_len(),
         }
     }
     fn set_params(&mut self, p: OVector<T, Dyn>) -> Result<(), ZooError> {
@@ -580,6 +595,7 @@ impl<T: Sc> SeparableNonlinearModel for AnyModel<T> {
             AnyModel::OneCol(m) => m.set_params(p),
             AnyModel::Table(m) => m.set_params(p),
             AnyModel::RowScaled(m, _) => m.set_params(p),
+            AnyModel::BadDeriv(m, _) => m.set_params(p),
         }
     }
     fn params(&self) -> OVector<T, Dyn> {
@@ -590,6 +606,7 @@ impl<T: Sc> SeparableNonlinearModel for AnyModel<T> {
             AnyModel::OneCol(m) => m.params(),
             AnyModel::Table(m) => m.params(),
             AnyModel::RowScaled(m, _) => m.params(),
+            AnyModel::BadDeriv(m, _) => m.params(),
         }
     }
     fn eval(&self) -> Result<OMatrix<T, Dyn, Dyn>, ZooError> {
@@ -600,6 +617,7 @@ impl<T: Sc> SeparableNonlinearModel for AnyModel<T> {
             AnyModel::OneCol(m) => m.eval(),
             AnyModel::Table(m) => m.eval(),
             AnyModel::RowScaled(m, w) => m.eval().map(|phi| scale_rows(phi, w)),
+            AnyModel::BadDeriv(m, _) => m.eval(),
         }
     }
     fn eval_partial_deriv(&self, k: usize) -> Result<OMatrix<T, Dyn, Dyn>, ZooError> {
@@ -610,6 +628,7 @@ impl<T: Sc> SeparableNonlinearModel for AnyModel<T> {
             AnyModel::OneCol(m) => m.eval_partial_deriv(k),
             AnyModel::Table(m) => m.eval_partial_deriv(k),
             AnyModel::RowScaled(m, w) => m.eval_partial_deriv(k).map(|d| scale_rows(d, w)),
+            AnyModel::BadDeriv(_, d) => d.get(k).cloned().ok_or_else(|| ZooError("derivative index".into())),
         }
     }
 }
